@@ -82,12 +82,17 @@ func init() {
 				ch = w.waChallenges[0]
 			}
 		}
-		if ch == "" {
+		if ch == "" && st.B == "" {
 			return nil
 		}
 		r := w.baseReq(s, "POST", "/webauthn/AuthFinish/")
 		if st.A == "replay" && s.lastWAResp != nil {
 			r.JSON = s.lastWAResp
+		} else if st.B == "malformed" {
+			// a syntactically broken assertion (what a buggy or hostile client sends)
+			r.JSON = []byte(`{"id":"AAAA","rawId":"AAAA","type":"public-key","response":{"authenticatorData":"AA","clientDataJSON":"e30","signature":"AA"}}`)
+		} else if st.B == "garbage" {
+			r.JSON = []byte(`{"id": 5, "response": [`)
 		} else {
 			r.JSON = tok.webauthnAssertion(u2fAppID, u2fAppID, ch)
 		}
